@@ -239,6 +239,11 @@ sb_error_t sb_trajectory_stats_calculator_run(
                         /* We can consume the entire segment */
                         to_descend -= delta;
                         altitude = segment->end.z;
+                        if (delta > 0) {
+                            /* If the preferred descent is too small to make a
+                             * difference we land where the descent ends */
+                            result->landing_time_sec = segment->end_time_sec;
+                        }
                     } else {
                         /* We can consume only part of the segment */
                         if (!sb_poly_touches(&segment->poly.z, altitude - to_descend, &rel_t)) {
